@@ -62,8 +62,19 @@ struct EcSession {
                         if (!src[i])
                                 return;
                         srcdata[i].resize(len);
-                        for (auto &b : srcdata[i])
-                                b = (uint8_t) r.u64();
+                        // source shapes: random; or record-structured (16-byte lanes that are all zero, all non-zero, all 0xFF or random:
+                        // empty records next to full ones), which is what a kernel's "skip the zero vector" shortcut keys on
+                        int shape = (int) ((uint64_t) plan.geti("srcshape") % 4);
+                        uint64_t lanes = r.u64();
+                        for (size_t q = 0; q < srcdata[i].size(); q++) {
+                                if ((q & 15) == 0 && (q & 1023) == 0)
+                                        lanes = r.u64();
+                                int lane = shape == 0 ? 3 : (int) ((lanes >> (2 * ((q >> 4) & 31))) & 3);
+                                if (shape == 2 && lane == 3)
+                                        lane = (int) ((q >> 4) & 1); // strict alternation zero / non-zero
+                                uint8_t v = (uint8_t) r.u64();
+                                srcdata[i][q] = lane == 0 ? 0 : lane == 1 ? (uint8_t) (v | 1) : lane == 2 ? 0xff : v;
+                        }
                         memcpy(src[i]->data, srcdata[i].data(), len);
                 }
                 for (int j = 0; j < rows; j++) {
@@ -223,7 +234,7 @@ static Json gen_ec(Rng &r0, const std::string &focus, int tier)
         p.set("prof", "ec").set("focus", focus);
         int k = (int) r.below(32);
         static const int lens[] = { 0, 1, 15, 16, 17, 31, 32, 33, 63, 64, 65, 95, 127, 128, 129, 191, 255, 256, 257, 511, 512, 513, 1000, 4096, 4097 };
-        p.set("k", k).set("rows", (int) r.below(14)).set("len", r.chance(1, 2) ? r.pick(lens) : (int) r.logsize(8999)).set("apply", (int) r.below(3)).set("matrix", (int) r.below(3)).set("s", r.u64() >> 16);
+        p.set("k", k).set("rows", (int) r.below(14)).set("len", r.chance(1, 2) ? r.pick(lens) : (int) r.logsize(8999)).set("apply", (int) r.below(3)).set("matrix", (int) r.below(3)).set("s", r.u64() >> 16).set("srcshape", r.chance(1, 2) ? 0 : (int) (1 + r.below(3)));
         // delivery order: a permutation of the sources with duplicate pairs injected
         std::vector<int> order;
         for (int i = 0; i <= k; i++)
